@@ -81,6 +81,7 @@ func TestVerifC18BackupRestore(t *testing.T) {
 		}
 		defer b.close()
 		defer verifhook.Set(nil)
+		b.onExclude = stats.Exclude
 		var canon strings.Builder
 		cacheDirty := false
 		n := rapid.IntRange(3, 18).Draw(rt, "steps")
@@ -284,7 +285,6 @@ const (
 	vMinT = -9223372036854775806
 	vMaxT = 9223372036854775806
 )
-
 
 // Directed campaign for the known finding restore-drops-tombstones.
 func TestVerifC18KFRestoreDropsTombstones(t *testing.T) {
